@@ -72,6 +72,8 @@ type DFS struct {
 	Deadline   time.Time    // zero: none
 	Body       func(c *Ctx) // one execution
 	After      func(c *Ctx) // called after each execution this shard owns (oracle)
+	Retries    int          // re-run an execution whose replayed prefix diverged up to this many times
+	Retried    int64
 	Executions int64
 	Diverged   int64
 	TimedOut   bool
@@ -105,6 +107,11 @@ func (d *DFS) explore(prefix []int, spent int, depth int) {
 	}
 	c := &Ctx{prefix: prefix}
 	d.Body(c)
+	for try := 0; try < d.Retries && (c.Diverged != "" || len(c.Trace) < len(prefix)); try++ {
+		d.Retried++
+		c = &Ctx{prefix: prefix}
+		d.Body(c)
+	}
 	if c.Diverged != "" {
 		d.Diverged++
 		if own && d.After != nil {
